@@ -79,6 +79,22 @@ def shifts_and_products(F, S):
     rs = [nd for nd in tg.nodes if nd["k"] == "CXXMemberCallExpr" and nd.get("fname") == "resize"]
     if len(rs) != 1:
         raise AnalysisBroken("ReadTileGroup: resize not found")
+    arg0 = tg.n(tg.strip(rs[0]["args"][0]))
+    if arg0["k"] in CALLS and F.callees(arg0):
+        # the area comes from a helper: its return expression is what can wrap
+        for cal in F.callees(arg0):
+            Wc = Width(cal)
+            for r in returns(cal):
+                for (x, base) in Wc.arith_nodes(r["value"]):
+                    inst = "%s::ReadTileGroup#area-helper:%s" % (M, fmt_term(cal.term(x)))
+                    wraps = Wc.may_wrap(x, base) or (cal.n(x).get("iw") or 64) < 64
+                    if wraps:
+                        out.append(bad("R-TAINT", inst, cal.loc(x), cal.qn, "tileWidth x tileHeight cannot wrap before it sizes the mapping list",
+                                       "%s is formed in %s bits" % (fmt_term(cal.term(x)), cal.n(x).get("iw"))))
+                    else:
+                        out.append(ok("R-TAINT", inst, cal.loc(x), cal.qn, "tileWidth x tileHeight cannot wrap before it sizes the mapping list", "formed in 64 bits"))
+    elif not W.arith_nodes(rs[0]["args"][0]):
+        raise AnalysisBroken("ReadTileGroup: the size of the mapping list is not an arithmetic expression the rule recognises")
     for (x, base) in W.arith_nodes(rs[0]["args"][0]):
         inst = "%s::ReadTileGroup#area:%s" % (M, fmt_term(tg.term(x)))
         if W.may_wrap(x, base):
